@@ -297,7 +297,7 @@ def run(tier, only=None):
     t0 = time.time()
     specs = [s for s in SPLITS if not only or s[0] in only or s[0].split(".")[0] in only]
     obs = []
-    if specs and not (only and "kani" in only and len(only) == 1):
+    if specs and not (only and set(only) <= {"kani", "split"}):
         ds = [split_driver(s[0], s[1], s[2], F.BYTAG[s[3]]) for s in specs]
         built = build(ds, tag="C11-default")
         timeout = 120 if tier == "quick" else 1200
@@ -320,6 +320,9 @@ def run(tier, only=None):
         built.close()
     else:
         merr = None
+    if not only or "split" in only:
+        from . import C11_split as SP
+        obs.extend(SP.obligations(tier))
     kani_note = "not run"
     if not only or "kani" in only:
         try:
